@@ -105,6 +105,11 @@ def gen_random(rng, g, bs, opt, nops, style):
         if style == "fill":       # chunks that fill the first block exactly
             parts = rng.choice([2, 4, 8, 16, 32])
             return first_area_bytes // parts - (ge * pad if rng.random() < 0.2 else 0)
+        if style == "edge":       # block-size boundaries: k * block_size (and the doubling sequence) +- 0..2 granules +- 1 byte
+            if r < 0.35:
+                return rng.randint(1, 4 * ge)
+            k = rng.choice([1, 2, 2, 2, 3, 4, 4, 5, 8])
+            return max(1, k * bse + rng.randint(-2, 2) * ge * rng.choice([1, 1, 2, 4][:npools + 1]) + rng.choice([0, 0, 1, -1]))
         if style == "big":
             if r < 0.5:
                 return rng.randint(1, 4096)
@@ -184,7 +189,7 @@ def gen_exhaustive(depth, g, bs, opt):
     ge, bse = eff(g, bs)
     pad = 0 if opt & NOPAD else 1
     full = 2 * bse - pad * ge
-    alpha = [("A", ge), ("A", 2 * ge + 1), ("A", full // 2), ("A", full), ("A", full - ge), ("A", 3 * bse),
+    alpha = [("A", ge), ("A", 2 * ge + 1), ("A", full // 2), ("A", full), ("A", full - ge), ("A", 2 * bse), ("A", 3 * bse),
              ("R", "first"), ("R", "last"), ("S", "last", 1), ("S", "first", ge), ("Z", 0), ("Z", 1)]
     out = []
 
@@ -244,6 +249,25 @@ def gen_directed(g, bs, opt):
                 h.ops.append(("A", (chunk - (pad if a == parts - 1 else 0)) * ge))
             h.ops += [("A", 15 * ge), ("A", ge), ("T",), ("D",)]
             out.append(h)
+    return out
+
+
+def gen_boundary(g, bs, opt):
+    """Requests at the block-size boundaries: k*block_size +- 0..2 granules +- 1 byte (the first block is 2*block_size,
+    every further block doubles), on a fresh allocator and again when a block already exists: exact fits that leave 0 or 1
+    granule, requests that are one granule too big for the default block (with and without the padding granule)."""
+    ge, bse = eff(g, bs)
+    out = []
+    for base in (bse, 2 * bse, 3 * bse, 4 * bse, 8 * bse):
+        for dg in (-2, -1, 0, 1, 2):
+            for db in (0, 1, -1):
+                size = base + dg * ge + db
+                if size <= 0:
+                    continue
+                h = Hist(g, bs, opt, "boundary/%dbs%+dg%+d" % (base // bse, dg, db))
+                h.ops = [("A", size), ("T",), ("D",), ("W", 0), ("A", ge), ("A", size), ("T",), ("D",), ("Q", 2, 0),
+                         ("A", 2 * size), ("T",), ("R", 0), ("R", 2), ("A", size), ("T",), ("D",), ("R", 3), ("R", 1), ("R", 4), ("T",), ("D",)]
+                out.append(h)
     return out
 
 
@@ -413,6 +437,13 @@ def judge_history(ck, h, hi, a, mo, m, n, present, stats):
         if y == "Q oob":
             stats["q_oob"] += 1
             continue
+        if x[:2] in ("T ", "Z "):
+            # independent sanity of the implementation's own statistics: used_size can never exceed reserved_size
+            t = x.split()
+            if len(t) == 5 and t[3].isdigit() and t[4].isdigit() and int(t[3]) > int(t[4]):
+                ck.violation("C09/used-exceeds-reserved", "statistics() reports used_size %s > reserved_size %s at op %d (%s) of a %s history "
+                             "with config %s" % (t[3], t[4], i, lines[i], h.tag, lines[0]),
+                             {"config": lines[0], "tag": h.tag, "variant_bits": stats["vbits"], "history": lines[:i + 1] + ["X"], "impl": x})
         compared += 1
         k = lines[i][0]
         stats["ops"][k] = stats["ops"].get(k, 0) + 1
@@ -530,6 +561,9 @@ def run(ck):
     for opt in optsets:
         for g in grans:
             hists += gen_directed(g, 65536, opt)
+    for opt in optsets:
+        for g in grans:
+            hists += gen_boundary(g, 65536, opt)
     n_directed = len(hists) - n_corpus
     # bounded-exhaustive
     depth = 4 if quick else 5
@@ -540,14 +574,14 @@ def run(ck):
             hists += gen_exhaustive(4, 128, 65536, opt)
     n_exh = len(hists) - n_corpus - n_directed
     # random
-    styles = ["mixed", "tiny", "words", "fill", "big"]
+    styles = ["mixed", "tiny", "words", "fill", "big", "edge"]
     nops = 1500 if quick else 12000
     per_cfg = 1 if quick else 2
     for opt in optsets:
         for g in grans:
             for st in styles:
                 for _ in range(per_cfg):
-                    hists.append(gen_random(rng, g, rng.choice(bss), opt, nops if st != "big" else nops // 5, st))
+                    hists.append(gen_random(rng, g, rng.choice(bss), opt, nops if st not in ("big", "edge") else nops // 5, st))
     if not quick:
         for opt in (0, MULTI, FILL | IMM):
             hists.append(gen_random(rng, 64, 65536, opt, 100000, "mixed"))
@@ -645,7 +679,7 @@ def run(ck):
         "proof",
         {"evaluations": compared + mon_only_ops, "distinct_nontrivial": stats["nontrivial"],
          "rule": "operations of generated allocator histories (seeded by VERIF_SEED): corpus + directed exact-fill/release patterns + all "
-                 "histories of depth %d over a 12-letter alphabet on the minimum block + random histories in 5 styles per (13 option sets x "
+                 "histories of depth %d over a 13-letter alphabet on the minimum block + block-size boundary requests (k*block_size +- 0..2 granules +- 1 byte) + random histories in 6 styles per (13 option sets x "
                  "granularity 64/128/256); an operation is non-trivial when it succeeded and changed or exposed allocator state "
                  "(A/R/S/Q/W ok, every reset); each counted once per (history, position)" % depth,
          "samples": samples, "ops_by_kind": stats["ops"], "histories": len(hists),
